@@ -3,7 +3,11 @@ package main
 import (
 	"bytes"
 	"encoding/json"
+	"fmt"
 	"reflect"
+
+	govtypes "github.com/cosmos/cosmos-sdk/x/gov/types"
+	paramproposal "github.com/cosmos/cosmos-sdk/x/params/types/proposal"
 
 	paramtypes "github.com/cosmos/cosmos-sdk/x/params/types"
 
@@ -53,6 +57,10 @@ var opResolvers = []func(w *World, op Op) sdk.Msg{
 // state (what a passed proposal does at a block boundary).
 func (w *World) applyParam(st *Step) {
 	if !w.inBlock {
+		return
+	}
+	if st.S["via"] == "gov" {
+		w.govParamChange(st)
 		return
 	}
 	var act func(n *Node)
@@ -112,4 +120,62 @@ func pairsValid(pairs paramtypes.ParamSetPairs) bool {
 		}
 	}
 	return true
+}
+
+var paramKeyOf = map[string]map[string]string{
+	"storage": {"collateralPrice": "CollateralPrice", "attestMinToPass": "AttestMinToPass", "attestFormSize": "AttestFormSize", "proof_window": "ProofWindow",
+		"price_per_tb_per_month": "PricePerTbPerMonth", "pol_ratio": "POLRatio", "referral_commission": "Referrals", "check_window": "CheckWindow", "chunk_size": "ChunkSize"},
+	"mint": {"mint_decrease": "MintIncrease", "tokens_per_block": "TokensPerBlock", "dev_grants_ratio": "DevGrants", "staker_ratio": "StakerRatio", "storage_provider_ratio": "ProviderRatio"},
+}
+
+var govSubspace = map[string]string{"storage": "storage", "mint": "jklmint"}
+
+// govParamChange changes parameters the way a live chain does: a ParameterChangeProposal is
+// submitted with its deposit and voted through by the validator's delegator (account 0) as two
+// real transactions; the gov end-blocker executes it once the (1 microsecond) voting period is
+// over, writing to the params subspace directly — not through the module keeper's SetParams.
+func (w *World) govParamChange(st *Step) {
+	mod := st.S["module"]
+	keys, ok := paramKeyOf[mod]
+	if !ok {
+		return
+	}
+	var changes []paramproposal.ParamChange
+	for _, k := range sortedKeys(st.N) {
+		pk, has := keys[k]
+		if !has {
+			continue
+		}
+		changes = append(changes, paramproposal.NewParamChange(govSubspace[mod], pk, fmt.Sprintf("\"%d\"", st.N[k])))
+	}
+	if len(changes) == 0 {
+		return
+	}
+	content := paramproposal.NewParameterChangeProposal("verif", "simulated governance", changes)
+	a := w.accts[0]
+	sub, err := govtypes.NewMsgSubmitProposal(content, sdk.NewCoins(sdk.NewInt64Coin(denom, 10)), a.Addr)
+	if err != nil {
+		return
+	}
+	bz, err := w.buildTx([]sdk.Msg{sub}, defaultGas, a)
+	if err != nil {
+		return
+	}
+	res := w.Deliver(bz)
+	if res == nil || res.Code != 0 {
+		w.Probe("gov_submit_failed")
+		return
+	}
+	var sr govtypes.MsgSubmitProposalResponse
+	if !decodeResp(res.Data, 0, &sr) {
+		return
+	}
+	vote := govtypes.NewMsgVote(a.Addr, sr.ProposalId, govtypes.OptionYes)
+	bz, err = w.buildTx([]sdk.Msg{vote}, defaultGas, a)
+	if err != nil {
+		return
+	}
+	if r2 := w.Deliver(bz); r2 != nil && r2.Code == 0 {
+		w.Fault("param_change_by_governance")
+	}
 }
